@@ -4,9 +4,12 @@
 cd "$(dirname "$0")/.."
 ROOT=$(pwd)
 export GOFLAGS=-mod=mod GOPROXY=off GOSUMDB=off GOTOOLCHAIN=local
+# optional arguments: K N - only every N-th change, starting with the K-th (shards that can run side by side)
+K=${1:-0}; N=${2:-1}; idx=-1
 for d in seeded/*/; do
   name=$(basename $d)
   [ -f $d/patch.diff ] || continue
+  idx=$((idx+1)); [ $((idx % N)) -eq $K ] || continue
   ids=$(python3 -c "import json,re;m=json.load(open('$d/meta.json'));print(' '.join(sorted(set(re.findall(r'C[0-9][0-9]',' '.join(m.get('caught_by',[])))))))")
   wt=/tmp/seedmx-$name
   git -C /repo worktree remove --force $wt >/dev/null 2>&1; rm -rf $wt
